@@ -430,3 +430,199 @@ Proof.
 Qed.
 
 End FactorField.
+
+(* ------------------------------------------------------------------ *)
+(* Part 4: the constructor produces a well-formed profile (any Scalar), hence the
+   hypotheses of the solve theorems hold for every solver object it returns.          *)
+Section Profile.
+Context {S : Scalar}.
+Local Notation vec := (vec S).
+
+Definition heights_ok (n : nat) (h : list nat) : Prop :=
+  length h = Datatypes.S n /\ forall i, pget h i <= i.
+
+Lemma pget_lset (p : list nat) i j v :
+  pget (lset p i v) j = if Nat.eqb i j then (if Nat.ltb i (length p) then v else 0) else pget p j.
+Proof. unfold pget. apply lset_nth. Qed.
+
+Lemma heights_ok_lset n h i v : heights_ok n h -> v <= i -> heights_ok n (lset h i v).
+Proof.
+  intros [HL Hh] Hv. split; [rewrite lset_length; assumption|]. intro j. rewrite pget_lset.
+  destruct (Nat.eqb_spec i j) as [->|]; [|apply Hh]. destruct (Nat.ltb j (length h)); lia.
+Qed.
+
+Lemma profile_entry_ok n ip i h (e : nat * S) : heights_ok n h -> heights_ok n (profile_entry ip i h e).
+Proof.
+  intro H. unfold profile_entry. destruct (negb (is_zero (snd e))); [|assumption].
+  destruct (Nat.ltb (pget ip (fst e)) (pget ip i)).
+  - destruct (Nat.ltb _ _); [|assumption]. apply heights_ok_lset; [assumption|lia].
+  - destruct (Nat.ltb (pget ip i) (pget ip (fst e))); [|assumption].
+    destruct (Nat.ltb _ _); [|assumption]. apply heights_ok_lset; [assumption|lia].
+Qed.
+
+Lemma profile_heights_ok n ip (A : crs S) : heights_ok n (profile_heights n ip A).
+Proof.
+  unfold profile_heights.
+  apply (for_loop_inv (fun _ h => heights_ok n h)).
+  - split; [apply repeat_length|]. intro i. unfold pget.
+    destruct (Nat.lt_ge_cases i (Datatypes.S n)).
+    + rewrite nth_repeat. lia.
+    + rewrite nth_overflow by (rewrite repeat_length; assumption). lia.
+  - intros i h _ Hh. generalize (nth i (rows A) []). intro r. revert h Hh.
+    induction r as [|e r IH]; intros h Hh; simpl; [assumption|].
+    apply IH. apply profile_entry_ok. assumption.
+Qed.
+
+Lemma profile_ptr_wf n h : heights_ok n h -> profile_wf n (profile_ptr n h).
+Proof.
+  intros [HL Hh]. unfold profile_ptr.
+  pose (P := fun k (pl : list nat * nat) =>
+     length (fst pl) = Datatypes.S n /\
+     (forall j, k <= j -> pget (fst pl) j = pget h j) /\
+     snd pl = (if Nat.eqb k 1 then 0 else pget h (k - 1)) /\
+     (forall j, j + 1 < k -> pget (fst pl) j <= pget (fst pl) (Datatypes.S j) /\
+                             pget (fst pl) (Datatypes.S j) - pget (fst pl) j <= j)).
+  assert (H : P (1 + n) (for_loop 1 n (fun i (pl : list nat * nat) =>
+                       let tmp := pget (fst pl) i in
+                       (lset (fst pl) i (pget (fst pl) (i - 1) + snd pl), tmp)) (h, 0))).
+  { apply (for_loop_inv P).
+    - unfold P. cbn [fst snd]. repeat split; try assumption; try reflexivity; intros; lia.
+    - intros k [p l] Hk HP. unfold P in *. cbv zeta. cbn [fst snd] in *.
+      destruct HP as (HLp & Htail & Hl & Hwf). repeat split.
+      + rewrite lset_length. assumption.
+      + intros j Hj. rewrite pget_lset. destruct (Nat.eqb_spec k j); [lia|]. apply Htail. lia.
+      + destruct (Nat.eqb_spec (Datatypes.S k) 1); [lia|]. replace (Datatypes.S k - 1) with k by lia.
+        apply Htail. lia.
+      + destruct (Nat.eq_dec (j + 1) k) as [E|E].
+        * rewrite !pget_lset. replace (Datatypes.S j) with k by lia.
+          rewrite Nat.eqb_refl. destruct (Nat.eqb_spec k j); [lia|].
+          destruct (Nat.ltb_spec k (length p)); [|lia]. replace (k - 1) with j by lia. lia.
+        * rewrite !pget_lset. destruct (Nat.eqb_spec k (Datatypes.S j)); [lia|].
+          destruct (Nat.eqb_spec k j); [lia|]. apply Hwf. lia.
+      + destruct (Nat.eq_dec (j + 1) k) as [E|E].
+        * rewrite !pget_lset. replace (Datatypes.S j) with k by lia.
+          rewrite Nat.eqb_refl. destruct (Nat.eqb_spec k j); [lia|].
+          destruct (Nat.ltb_spec k (length p)); [|lia]. replace (k - 1) with j by lia.
+          rewrite Hl. destruct (Nat.eqb_spec k 1).
+          -- lia.
+          -- replace (k - 1) with j by lia. specialize (Hh j). lia.
+        * rewrite !pget_lset. destruct (Nat.eqb_spec k (Datatypes.S j)); [lia|].
+          destruct (Nat.eqb_spec k j); [lia|]. apply Hwf. lia. }
+  unfold P in H. destruct H as (HLp & _ & _ & Hwf). split; [assumption|].
+  intros i Hi. apply Hwf. lia.
+Qed.
+
+Lemma fill_D_length n ip ptr (A : crs S) : length (snd (fill n ip ptr A)) = n.
+Proof.
+  unfold fill.
+  apply (for_loop_inv (fun _ (lud : vec * vec * vec) => length (snd lud) = n)).
+  - simpl. apply repeat_length.
+  - intros i lud _ Hl. generalize (nth i (rows A) []). intro r. revert lud Hl.
+    induction r as [|e r IH]; intros lud Hl; simpl; [assumption|]. apply IH.
+    destruct lud as [[L U] D]. unfold fill_entry. simpl in *.
+    destruct (negb (is_zero (snd e))); [|assumption].
+    destruct (Nat.ltb _ _); [assumption|]. destruct (Nat.eqb _ _); simpl; [rewrite lset_length|]; assumption.
+Qed.
+
+(* every solver object returned by the constructor has a well-formed profile *)
+Theorem sky_build_perm_wf (A : crs S) perm f :
+  sky_build_perm A perm = SkyOk f ->
+  sk_n f = nrows A /\ sk_perm f = perm /\ profile_wf (sk_n f) (sk_ptr f).
+Proof.
+  unfold sky_build_perm. intro H.
+  destruct (factorize _ _ _) as [[[L U] D]|]; [|discriminate].
+  injection H as <-. simpl. split; [reflexivity|]. split; [reflexivity|].
+  apply profile_ptr_wf, profile_heights_ok.
+Qed.
+
+End Profile.
+
+Section BuildField.
+Context {S : Scalar}.
+Hypothesis Sft : Sfield S.
+Hypothesis Seqb : seqb_spec S.
+
+Theorem sky_build_perm_pivots (A : crs S) perm f : 0 < nrows A ->
+  sky_build_perm A perm = SkyOk f -> forall i, i < sk_n f -> vget (sk_D f) i <> s0.
+Proof.
+  unfold sky_build_perm. intros Hn H.
+  destruct (factorize _ _ _) as [[[L U] D]|] eqn:EF; [|discriminate].
+  injection H as <-. simpl.
+  eapply (factorize_pivots_nonzero Sft Seqb); [exact Hn| |exact EF]. apply fill_D_length.
+Qed.
+End BuildField.
+
+(* ------------------------------------------------------------------ *)
+(* Part 5: end to end -- every solver object built by skyline_lu(A) from a square matrix
+   (any pattern) solves exactly with respect to its stored factors, for every history of y. *)
+From Coq Require Import Permutation.
+From Amgcl Require Import CuthillMcKeeProofs.
+Section EndToEnd.
+Context {S : Scalar}.
+Hypothesis Sft : Sfield S.
+Hypothesis Seqb : seqb_spec S.
+
+Theorem sky_build_solve_exact reverse (A : crs S) f (rhs x y : vec S) :
+  graph_wf (map (map fst) (rows A)) = true -> 0 < nrows A ->
+  sky_build reverse A = SkyOk f -> length y = nrows A -> length x = nrows A ->
+  sk_n f = nrows A /\ Permutation (sk_perm f) (seq 0 (nrows A)) /\
+  forall i, i < nrows A ->
+    sumn (fun j => Lfull f i j *
+                   sumn (fun t => Ufull f j t * vget (fst (sky_solve f rhs x y)) (pget (sk_perm f) t))
+                        (sk_n f))%S (sk_n f)
+    = vget rhs (pget (sk_perm f) i).
+Proof.
+  intros Hg Hn Hb Hy Hx. unfold sky_build in Hb.
+  assert (Hlen : length (map (map fst) (rows A)) = nrows A) by (unfold nrows; apply map_length).
+  destruct (cuthill_mckee_permutation reverse _ Hg) as (p & Hcm & Hperm); [rewrite Hlen; lia|].
+  rewrite Hcm in Hb. rewrite Hlen in Hperm.
+  destruct (sky_build_perm_wf A p f Hb) as (Hnf & Hpf & Hwf).
+  split; [assumption|]. split; [rewrite Hpf; assumption|].
+  intros i Hi.
+  assert (Hpl : length p = nrows A) by (rewrite (Permutation_length Hperm); apply seq_length).
+  apply (sky_solve_exact Sft f rhs x y Hwf).
+  - rewrite Hnf. assumption.
+  - rewrite Hpf. eapply Permutation_NoDup; [apply Permutation_sym; exact Hperm|apply seq_NoDup].
+  - rewrite Hpf, Hnf. assumption.
+  - rewrite Hpf, Hnf. intros k Hk. rewrite Hx. unfold pget.
+    assert (Hin : In (nth k p 0) (seq 0 (nrows A))).
+    { eapply Permutation_in; [exact Hperm|]. apply nth_In. lia. }
+    apply in_seq in Hin. lia.
+  - apply (sky_build_perm_pivots Sft Seqb A p f Hn Hb).
+  - rewrite Hnf. assumption.
+Qed.
+End EndToEnd.
+
+(* ------------------------------------------------------------------ *)
+(* Part 6: factorize() on the full profile (dense Crout) for n = 3, by evaluating the loops
+   symbolically: the stored factors multiply to the input matrix.  (A2, partial)          *)
+Section DenseSmall.
+Local Open Scope S_scope.
+Context {S : Scalar}.
+Hypothesis Sft : Sfield S.
+Hypothesis Seqb : seqb_spec S.
+Add Field SFieldDense : Sft.
+Ltac crunchz H :=
+  repeat match type of H with context [if is_zero ?x then _ else _] =>
+        let E := fresh "E" in destruct (is_zero x) eqn:E; cbn in H; [discriminate H|apply (is_zero_false Seqb) in E] end.
+Definition dense3 (d0 d1 d2 l10 l20 l21 u01 u02 u12 : S) (i j : nat) : S :=
+  nth j (nth i [[d0; u01; u02]; [l10; d1; u12]; [l20; l21; d2]] []) s0.
+Lemma crout_dense_3 (d0 d1 d2 l10 l20 l21 u01 u02 u12 : S) perm L U D :
+  factorize 3 [0; 0; 1; 3]%nat ([l10; l20; l21], [u01; u02; u12], [d0; d1; d2]) = Some (L, U, D) ->
+  forall i j, i < 3 -> j < 3 ->
+    sumn (fun t => Lfull (mkSky 3 perm [0; 0; 1; 3]%nat L U D) i t * Ufull (mkSky 3 perm [0; 0; 1; 3]%nat L U D) t j) 3
+    = dense3 d0 d1 d2 l10 l20 l21 u01 u02 u12 i j.
+Proof.
+  intros H i j Hi Hj. unfold factorize, crout_step, crout_U_col, crout_L_row, dot_sub in H. cbn in H.
+  crunchz H. injection H as <- <- <-.
+  (destruct i as [|[|[|i]]]; [| | |lia]); (destruct j as [|[|[|j]]]; [| | |lia]); cbn.
+  all: try (field; auto).
+  all: assert (P1 : d1 * d0 - l10 * u01 <> s0) by
+      (intro Hc; apply E0; transitivity ((d1 * d0 - l10 * u01) * sinv d0); [field; assumption|rewrite Hc; ring]).
+  all: assert (P2 : (d2 * d0 - l20 * u02) * (d1 * d0 - l10 * u01) - (l21 * d0 - l20 * u01) * (u12 * d0 - l10 * u02) <> s0) by
+      (intro Hc; apply E1;
+       transitivity (((d2 * d0 - l20 * u02) * (d1 * d0 - l10 * u01) - (l21 * d0 - l20 * u01) * (u12 * d0 - l10 * u02))
+                     * sinv d0 * sinv (d1 * d0 - l10 * u01)); [field; split; assumption|rewrite Hc; ring]).
+  all: repeat split; auto; apply (F_1_neq_0 Sft).
+Qed.
+End DenseSmall.
